@@ -3,3 +3,4 @@ pub mod core;
 pub mod envmodel;
 pub mod fsutil;
 pub mod props;
+pub mod tv;
